@@ -56,7 +56,7 @@ Definition show_spec_build (g : grammar) (c : config) (mm : list ninfo) (tbl : l
   | SOut => "('abort',0)"
   end.
 Definition show_wfg (g : grammar) (tbl : list ((nat * nat) * nat)) : string :=
-  (if (wfg g 24 || SpecCmt.wfgc g 24)%bool then "T" else "F") ++
+  (if (wfg g 24 || SpecCmt.wfgc g 24 || wfgu g 24)%bool then "T" else "F") ++
   (if existsb (fun e => Nat.eqb (snd e) 0) tbl then "z" else "") ++
   (if PegTerm.terminating PegTerm.none_nullable g then "t" else "").
 """)
@@ -155,14 +155,16 @@ def classify_dump(dump):
     for nd in nodes:
         k, kids = nd["kind"], nd["kids"]
         live_root = nd["root"] and not nd["suppress"]
-        if nd["sep"] is not None and k not in ("KStar", "KPlus"):
-            tags.add("unordered_group" if k == "KUnord" else "malformed")
-        if nd["eolterm"] and k not in ("KStar", "KPlus", "KOpt"):
-            tags.add("unordered_group" if k == "KUnord" else "malformed")
+        if nd["sep"] is not None and k not in ("KStar", "KPlus", "KUnord"):
+            tags.add("malformed")
+        if nd["eolterm"] and k not in ("KStar", "KPlus", "KOpt", "KUnord"):
+            tags.add("malformed")
         if (nd["ws"] is not None or nd["skipws"] is not None) and k not in ("KSeq", "KChoice"):
             tags.add("malformed")
         if k == "KUnord":
-            tags.add("unordered_group")
+            # Spec.ug_ok (class wfgu): no separator, no eolterm, all members productive; and no Comment rule
+            if not (nd["sep"] is None and not nd["eolterm"] and kids and all(prod[c] for c in kids)) or dump["comments"] is not None:
+                tags.add("unordered_group")
         if k in ("KAnd", "KNot", "KEmpty") and live_root:
             tags.add("nullable_rule")
         if k == "KStr" and len(nd["text"]) == 0:
@@ -493,6 +495,15 @@ def run(chk):
                 failures.append({"case": cinfo, "what": bad, "tags": btags, "impl": [tree[:300], im], "model": mv[1][:300]})
             elif not ctags:
                 chk.stat("cases inside the theorem's class agreeing with the reference")
+            # per-case counts per exclusion reason (evidence: coverage.distribution)
+            if ctags:
+                chk.stat("cases outside the proved classes")
+                for t in ctags:
+                    chk.stat("cases excluded by: " + t)
+                if len(ctags) == 1:
+                    chk.stat("cases excluded ONLY by: " + ctags[0])
+            else:
+                chk.stat("cases inside the proved classes")
             if chk.cov["evaluations"] % 80 == 7:
                 chk.sample({"grammar": case["grammar"], "input": text, "impl": tree[:120], "spec": mv[1][:120]})
     chk.cov["rule"] = ("generated textX grammars (2-6 rules; common, abstract and match rules; = ?= *= += ; string/regex matches incl. "
